@@ -115,3 +115,97 @@ def replay_fh(args, outdir):
     if clause is None:
         return dict(reproduced=False)
     return dict(reproduced=True, signature='L2_fastqhandle_sc:' + clause, what='FastqHandle single-cell mode: %s for %r' % (clause, a))
+
+
+def replay_split(args, outdir):
+    """Real BAM input, the real split_bam_by_tag + the real driver loop of the __main__ block (AST cut) run in-process with
+    the REAL pysam (AlignmentFile wrapped only to count simultaneously open output handles), output BAM files read back."""
+    import pysam
+    import singlecellmultiomics.bamProcessing.bamSplitByTag as BSmod
+    from replay.common import pysam_mk, HEADER
+    from stubs.fakebam import SerialPool
+    from vlib.astcut import cut_main
+    a = args['cex']
+    vals = ['cellA', 'cellB', 'cellC']
+    tags = [a['t0'], a['t1'], a['t2'], a['t3'], a['t4']][:a['n']]
+    d = tempfile.mkdtemp(prefix='c19split', dir=os.environ.get('VERIF_SCRATCH') or None)
+    clause = None
+    state = dict(open_now=0, max_open=0, passes=0)
+
+    class CountingPysam:
+        index = staticmethod(pysam.index)
+
+        @staticmethod
+        def AlignmentFile(path, mode='rb', **kw):
+            h = pysam.AlignmentFile(path, mode, **kw)
+            if 'w' in mode:
+                state['open_now'] += 1
+                state['max_open'] = max(state['max_open'], state['open_now'])
+
+                class W:
+                    filename = h.filename
+
+                    def write(self, r):
+                        return h.write(r)
+
+                    def close(self):
+                        if not h.closed:
+                            state['open_now'] -= 1
+                        return h.close()
+                return W()
+            state['passes'] += 1
+            if state['passes'] > 12:
+                raise RuntimeError('driver loop does not terminate')
+            return h
+    saved = (BSmod.pysam, BSmod.Pool, getattr(BSmod, 'print', None))
+    try:
+        inp = os.path.join(d, 'in.bam')
+        with pysam.AlignmentFile(inp, 'wb', header=HEADER) as h:
+            for i, t in enumerate(tags):
+                h.write(pysam_mk(query_name='r%d' % i, reference_name='chr1', reference_start=10 * i, cigartuples=[(0, 4)], seq='ACGT', qual='IIII',
+                                 tags=({'SM': vals[t]} if t < 3 else {})))
+        pysam.index(inp)
+        out = os.path.join(d, 'out') + '/'
+        os.makedirs(out)
+        BSmod.pysam, BSmod.Pool, BSmod.print = CountingPysam, SerialPool, (lambda *x, **k: None)
+        driver = cut_main(BSmod, 'skip = set()', params=('args', 'output_prefix'), result='skip')
+
+        class A:
+            bamfile, tag, head, max_handles = inp, 'SM', None, a['maxh']
+        try:
+            driver(A, out)
+        except Exception as e:
+            clause = 'raises.' + type(e).__name__
+        exp = {}
+        for i, t in enumerate(tags):
+            if t < 3:
+                exp.setdefault(vals[t], []).append('r%d' % i)
+        if clause is None:
+            for v, names in exp.items():
+                fp = '%s%s.bam' % (out, v)
+                if not os.path.exists(fp):
+                    clause = 'file_missing'
+                    break
+                with pysam.AlignmentFile(fp) as h:
+                    if [r.query_name for r in h] != names:
+                        clause = 'content'
+                        break
+                if not os.path.exists(fp + '.bai'):
+                    clause = 'index_missing'
+                    break
+            extra = [f for f in os.listdir(out) if f.endswith('.bam') and f[:-4] not in exp]
+            if clause is None and extra:
+                clause = 'unexpected_file'
+            if clause is None and state['max_open'] > a['maxh']:
+                clause = 'more_handles_open_than_max_handles'
+    finally:
+        BSmod.pysam, BSmod.Pool = saved[0], saved[1]
+        if saved[2] is None:
+            try:
+                del BSmod.print
+            except AttributeError:
+                pass
+        shutil.rmtree(d, ignore_errors=True)
+    if clause is None:
+        return dict(reproduced=False)
+    return dict(reproduced=True, signature='L3_bam_split_by_tag:' + clause, what='bamSplitByTag: %s for %r' % (clause, a))
